@@ -2005,7 +2005,7 @@ async fn perform_connectivity_checks_async(inner: Arc<IceTransportInner>) {
         // and this selection must not run again: check rounds re-triggered
         // by late (e.g. peer-reflexive) candidates would otherwise stomp the
         // nominated pair with a locally-preferred one the peer never chose.
-        if inner.nomination_complete.borrow().is_some() {
+        if inner.nomination_complete.borrow().is_some() && inner.selected_pair.lock().is_some() {
             debug!("ICE checks complete (controlled): keeping peer-nominated pair");
             return;
         }
@@ -2994,23 +2994,39 @@ async fn perform_tcp_binding_check(
     }
     let bytes = msg.encode(Some(remote_params.password.as_bytes()), true)?;
 
-    // Establish TCP connection to the remote peer
-    let connect_timeout = inner.config.stun_timeout;
-    let stream = timeout(connect_timeout, TcpStream::connect(remote.address))
-        .await
-        .map_err(|_| anyhow!("TCP connect timeout to {}", remote.address))?
-        .map_err(|e| anyhow!("TCP connect to {} failed: {}", remote.address, e))?;
-
-    let local_addr = stream.local_addr()?;
-    let wrapper = split_tcp_stream(stream, remote.address);
-    let write = match &wrapper {
-        IceSocketWrapper::TcpStream(_, write, _) => write.clone(),
-        _ => bail!("split_tcp_stream invariant"),
+    // RFC 6544 §7.1: a passive candidate never opens the connection. Its checks (and the
+    // nomination, when it is controlling) go over the connection the active peer opened,
+    // whose read loop is already running.
+    let inbound = if local.tcp_type == Some(TcpType::Passive) {
+        inner.gatherer.tcp_stream_from_peer(remote.address)
+    } else {
+        None
     };
+    let write = if let Some(IceSocketWrapper::TcpStream(_, write, _)) = inbound {
+        write
+    } else if remote.tcp_type == Some(TcpType::Active) {
+        // An active candidate (port 9 placeholder) does not listen.
+        bail!("no inbound TCP connection from {} yet", remote.address);
+    } else {
+        // Establish TCP connection to the remote peer
+        let connect_timeout = inner.config.stun_timeout;
+        let stream = timeout(connect_timeout, TcpStream::connect(remote.address))
+            .await
+            .map_err(|_| anyhow!("TCP connect timeout to {}", remote.address))?
+            .map_err(|e| anyhow!("TCP connect to {} failed: {}", remote.address, e))?;
 
-    // Register the TCP stream with the runner so its read loop handles incoming STUN responses
-    inner.gatherer.store_tcp_stream(local_addr, wrapper.clone());
-    let _ = inner.gatherer.socket_tx.send(wrapper);
+        let local_addr = stream.local_addr()?;
+        let wrapper = split_tcp_stream(stream, remote.address);
+        let write = match &wrapper {
+            IceSocketWrapper::TcpStream(_, write, _) => write.clone(),
+            _ => bail!("split_tcp_stream invariant"),
+        };
+
+        // Register the TCP stream with the runner so its read loop handles incoming STUN responses
+        inner.gatherer.store_tcp_stream(local_addr, wrapper.clone());
+        let _ = inner.gatherer.socket_tx.send(wrapper);
+        write
+    };
 
     // Register pending transaction
     let (tx, mut rx) = oneshot::channel();
@@ -3700,8 +3716,23 @@ impl IceGatherer {
         None
     }
 
+    /// The TCP connection whose remote end is `peer`.
+    fn tcp_stream_from_peer(&self, peer: SocketAddr) -> Option<IceSocketWrapper> {
+        let streams = self.tcp_streams.lock();
+        streams
+            .get(&peer)
+            .filter(|w| matches!(w, IceSocketWrapper::TcpStream(_, _, p) if *p == peer))
+            .cloned()
+    }
+
     fn store_tcp_stream(&self, local_addr: SocketAddr, wrapper: IceSocketWrapper) {
-        self.tcp_streams.lock().insert(local_addr, wrapper);
+        let mut streams = self.tcp_streams.lock();
+        // Also index by peer: connections accepted on one listener share `local_addr`
+        // and replace each other there.
+        if let IceSocketWrapper::TcpStream(_, _, peer) = &wrapper {
+            streams.insert(*peer, wrapper.clone());
+        }
+        streams.insert(local_addr, wrapper);
     }
 
     #[instrument(skip(self))]
